@@ -140,6 +140,16 @@ PROPS["C01"] = dict(
     assumptions=["in-session Logon messages and header defects are left to C07/C06", "the application callbacks never return an error in this check"],
 )
 
+PROPS["C03"] = dict(
+    pkg="./props/session", level="exploration", design_ref="DESIGN.md §3 C03",
+    technique="rapid-generated send histories, request ranges and refusal sets; the reply is tiled and compared byte-for-byte with the recorded first transmissions through an independent scanner",
+    level_note=SESSION_NOTE,
+    stages=[dict(name="rapid", kind="rapid", run="^TestC03_Rapid$", checks=(1200, 25000), shards=(12, 16), timeout=(600, 3000))],
+    require=["mode:persist=true/dict=true", "mode:persist=true/dict=false", "mode:persist=false/dict=false", "history-shape:ends-with-group", "history-shape:with-group",
+             "with-refusals", "range:empty", "range:clipped-at-end", "range:to-infinity", "range-with-app-and-admin"],
+    assumptions=["BeginSeqNo <= 0 is outside FIX and not generated", "all history messages are sent while logged on"],
+)
+
 NOT_APPLICABLE = {}
 
 HOOK_COMMITS = ["ce15100"]
